@@ -961,23 +961,42 @@ class Builder:
         r = self.r
         for name, text in HAND.items():
             prog = Prog(text, 'hand:' + name)
-            g = self.group(prog, 'hand')
+            self.hand_group(prog, r, True)
+            # the same program re-based in compact form (no optional whitespace) and in single-space form: a parser that
+            # wrongly REQUIRES or FORBIDS a space somewhere then differs between base and variants
+            for style in ('compact', 'single'):
+                ph, _ = self.plan_phys(prog, self.plan_style(prog, style))
+                ph = [s.lstrip() if not is_skip(s) else s for s in ph] if style == 'compact' else ph
+                p2 = Prog('\n'.join(ph) + '\n', f'hand:{name}:{style}')
+                if p2.opaque == 0 and [ln.an.key() for ln in p2.lines] == [ln.an.key() for ln in prog.lines if ln.an is not None]:
+                    self.hand_group(p2, r, False)
+                else:
+                    self.info['selfcheck_dropped'] += 1
+
+    def hand_group(self, prog, r, full):
+        g = self.group(prog, 'hand' if full else 'hand-restyled')
+        q = self.quick
+        if full:
             self.fam_eol(g, prog, r, 5)
-            self.fam_chunks(g, prog, r, 8 if self.quick else 30, exhaustive=n_cuts(len(prog.phys)) <= 500)
-            self.fam_comments(g, prog, r, 4 if self.quick else 20)
-            self.fam_indent(g, prog, r, 4 if self.quick else 20)
-            self.fam_tok(g, prog, r, 8 if self.quick else 40)
-            self.fam_combo(g, prog, r, 6 if self.quick else 40)
-            gaps = prog.gaps()
-            self.info['gaps_total'] += len(gaps)
-            for li, gi in gaps:
+            self.fam_chunks(g, prog, r, 8 if q else 30, exhaustive=n_cuts(len(prog.phys)) <= 500)
+            self.fam_comments(g, prog, r, 4 if q else 20)
+            self.fam_indent(g, prog, r, 4 if q else 20)
+            self.fam_tok(g, prog, r, 8 if q else 40)
+        for style in ('compact', 'single', 'wide', 'tab'):
+            ph, _ = self.plan_phys(prog, self.plan_style(prog, style))
+            self.add(g, prog, self.plain(ph), 'ws-style', f'all gaps {style}', False)
+        self.fam_combo(g, prog, r, (6 if q else 40) if full else (2 if q else 10))
+        gaps = prog.gaps()
+        self.info['gaps_total'] += len(gaps)
+        for li, gi in gaps:
+            an = prog.lines[li].an
+            self.single_break(g, prog, r, li, gi)
+            self.single_ws(g, prog, r, li, gi)
+            if gi >= 0 and an.mins[gi] == 0 and an.seps[gi] != '':
+                self.single_ws(g, prog, r, li, gi, '')
+            if not q:
                 self.single_break(g, prog, r, li, gi)
                 self.single_ws(g, prog, r, li, gi)
-                if gi >= 0 and prog.lines[li].an.mins[gi] == 0 and prog.lines[li].an.seps[gi] != '':
-                    self.single_ws(g, prog, r, li, gi, '')
-                if not self.quick:
-                    self.single_break(g, prog, r, li, gi)
-                    self.single_ws(g, prog, r, li, gi)
 
     def do_invalid(self):
         r = self.r
@@ -1048,7 +1067,7 @@ class Builder:
                 nexh += 1
                 self.fam_chunks(g, prog, r, 0, exhaustive=True)
             progs.append((g, prog))
-        self.single_gap_coverage(progs, r, per_kind=5 if self.quick else 40, full_programs=0 if self.quick else 150)
+        self.single_gap_coverage(progs, r, per_kind=8 if self.quick else 40, full_programs=0 if self.quick else 150)
 
     def single_gap_coverage(self, progs, r, per_kind, full_programs):
         """one-break and one-whitespace variants: every gap of the first `full_programs` programs; beyond that, for every
@@ -1277,7 +1296,7 @@ def evaluate(cases, results):
 
 
 # ------------------------------------------------------------------ determinism / statelessness
-def interleave_payload(cases, r, limit=2500, big=4, budget_bytes=1200000):
+def interleave_payload(cases, r, limit=2000, big=3, budget_bytes=700000):
     """(payload, index_map): a shuffled payload for ONE worker process containing every selected case twice (valid, invalid
     and different programs mixed); index_map[k] = index in `cases` of payload item k"""
     small, large, must = [], [], []
